@@ -81,6 +81,32 @@ def mutants(rng, l, k=3):
     return out
 
 
+def cross_mutants(l, ver):
+    """variants of a valid line that touch one cross-field rule each: LN against the sequence, the number of overlaps
+    of a path against its segments, begin/end order and `$` of intervals"""
+    f = l.split('\t')
+    out = []
+    if f[0] == 'S' and ver == 'gfa1' and len(f) >= 3:
+        rest = [t for t in f[3:] if not t.startswith('LN:')]
+        n = len(f[2]) if f[2] != '*' else 7
+        for v in (0, n, n + 1, max(n - 1, 0)):
+            out.append('\t'.join(f[:3] + ['LN:i:%d' % v] + rest))
+    if f[0] == 'P' and len(f) >= 4:
+        n = len(f[2].split(','))
+        for k in (n - 2, n - 1, n, n + 1):
+            if k >= 1:
+                out.append('\t'.join(f[:3] + [','.join(['*'] * k)] + f[4:]))
+                out.append('\t'.join(f[:3] + [','.join(['1M'] * k)] + f[4:]))
+    if f[0] in ('E', 'F') and len(f) >= 8:
+        i0 = 4 if f[0] == 'E' else 3
+        for i in (i0, i0 + 2):
+            b, e = f[i], f[i + 1]
+            out.append('\t'.join(f[:i] + [e.rstrip('$'), b.rstrip('$')] + f[i + 2:]))          # swapped
+            out.append('\t'.join(f[:i] + [b.rstrip('$') + '$', e.rstrip('$')] + f[i + 2:]))    # `$` on begin only
+            out.append('\t'.join(f[:i] + [e.rstrip('$') + '$', e.rstrip('$') + '$'] + f[i + 2:]))
+    return [x for x in out if x != l]
+
+
 def oracle_line(case):
     """line-level: gfapy accepts iff the independent recogniser does"""
     t, ver, vl = case['text'], case['version'], case['vlevel']
@@ -216,7 +242,7 @@ def run(ctx, deep, model_ok):
         ver = 'gfa1' if i % 2 else 'gfa2'
         lines, info = (gen.gen_gfa1 if i % 2 else gen.gen_gfa2)(rng)
         for l in lines:
-            for t in [l] + mutants(rng, l):
+            for t in [l] + mutants(rng, l) + cross_mutants(l, ver):
                 vl = rng.choice([1, 1, 2, 3])
                 case = {'kind': 'line', 'text': t, 'version': ver, 'vlevel': vl}
                 ok, _ = GR.valid_line(t, ver) if '\n' not in t else (False, '')
